@@ -6,7 +6,7 @@
    The per-protocol send->receive round trips are theorems about the packet models of Model.v
    (sender's datagram = what the node passes to sendto; receiver = node with one registered handler). *)
 From OlaBase Require Import Bytes.
-From C07 Require Import Gen Model ModelNet2 ModelStream ModelMulti ModelHist ModelExt ModelMerge ListLemmas RleProofs RleMore NetProofs NetProofs2 StreamProofs MultiProofs HistProofs ExtProofs StreamProofs2 ExtProofs2 MergeProofs.
+From C07 Require Import Gen Model ModelNet2 ModelStream ModelMulti ModelHist ModelExt ModelMerge ModelSrc ListLemmas RleProofs RleMore NetProofs NetProofs2 StreamProofs MultiProofs HistProofs ExtProofs StreamProofs2 ExtProofs2 MergeProofs SrcProofs.
 Local Open Scope N_scope.
 
 (* the constants the statements below spell out as literals *)
@@ -338,6 +338,29 @@ Theorem c07_shownet_sender_history : forall ip hu ops seq b,
 Proof. intros. apply shownet_send_hist_ok. assumption. Qed.
 Print Assumptions c07_shownet_sender_history.
 
+(* ===== wave 6 ===== *)
+(* E1.31 receiver with any number of tracked sender CIDs on a universe (expiry, priority arbitration,
+   sequence window, HTP merge): for a data packet (start code 0, not a terminate) of sender c arriving
+   at a time when every OTHER tracked sender has been silent for longer than the expiry interval
+   (2.5 s) - whatever priorities they had - and c's own sequence number is not in the "old" window,
+   the handler runs and its buffer is exactly c's frame: the active priority left behind by vanished
+   senders does not lock c out, and nothing of their data is merged in. *)
+Theorem c07_e131_remaining_sender : forall st now p,
+  k_term p = false -> k_sc0 p = true ->
+  NoDup (map e_cid (r_srcs st)) ->
+  (forall s, In s (r_srcs st) -> e_cid s <> k_cid p -> e_ts s + E131_EXPIRY_MS < now) ->
+  (forall s, In s (r_srcs st) -> e_cid s = k_cid p -> seq_old (k_seq p) (e_seq s) = false) ->
+  exists st', e131_track st now p = (st', true) /\ r_hbuf st' = Some (take 512 (k_frame p)).
+Proof. exact e131_remaining_sender. Qed.
+Print Assumptions c07_e131_remaining_sender.
+
+(* the hypothesis on the source list is an invariant of the receiver from its empty state onwards *)
+Theorem c07_e131_sources_nodup : forall st now p,
+  NoDup (map e_cid (@nil esrc)) /\
+  (NoDup (map e_cid (r_srcs st)) -> NoDup (map e_cid (r_srcs (fst (e131_track st now p))))).
+Proof. intros. split; [constructor|apply e131_track_nodup]. Qed.
+Print Assumptions c07_e131_sources_nodup.
+
 (* ---- non-vacuity and the pre-fix failures as concrete evaluations of the (fixed) model *)
 Definition ramp (n : nat) : list N := map (fun i => N.of_nat ((i * 7 + 3) mod 256)) (seq 0 n).
 (* 128 distinct slots: the unfixed encoder emitted the count byte 0x80 here *)
@@ -424,3 +447,12 @@ Proof.
   - split; [|vm_compute; reflexivity].
     intros a b Ha Hb. vm_compute in Ha, Hb. inversion Ha; inversion Hb; subst. vm_compute. discriminate.
 Qed.
+(* sender 1 streams at priority 150 and vanishes; 2.7 s later sender 2 at priority 100 is delivered *)
+Example ex_e131_takeover :
+  let pk c prio seq f := {| k_cid := c; k_prio := prio; k_seq := seq; k_term := false; k_sc0 := true; k_frame := f |} in
+  let s0 := {| r_srcs := []; r_active := 0; r_hbuf := None |} in
+  let s1 := fst (e131_track s0 0 (pk 1 150 0 [200; 200])) in
+  e131_track s1 300 (pk 2 100 0 [1; 2]) = (s1, false) /\
+  snd (e131_track s1 2701 (pk 2 100 0 [1; 2])) = true /\
+  r_hbuf (fst (e131_track s1 2701 (pk 2 100 0 [1; 2]))) = Some [1; 2].
+Proof. vm_compute. repeat split; reflexivity. Qed.
